@@ -110,11 +110,31 @@ template <bool P> void run_all() {
 	{ using S = Scenario<typename CfgOf<P>::Man, P>; typename S::Instance m; mixin(m.isActive() ? 1u : 0u); m.enter(); S::template drive<true>(m); m.exit(); mixin(m.isActive() ? 1u : 0u); m.enter(); m.update(); m.exit(); }
 }
 
+// a concrete machine written the way applications write them (no templates around it): the states' bases are ordinary classes,
+// so an unqualified name inside a state is looked up in the library's base classes before the enclosing scopes -- the
+// application's own Logger / Task / Status must still be what these names mean, whatever switches are defined
+namespace concrete {
+using M = ffsm2::MachineT<ffsm2::Config>;
+struct Top; struct Left; struct Right;
+using FSM = M::Root<Top, Left, Right>;
+struct Top : FSM::State { void enter(PlanControl&) { Logger lg{2}; mixin(300 + lg.n); } };
+struct Left : FSM::State {
+	void enter(PlanControl&) { Logger lg{3}; Task tk{5}; Status st{7}; mixin(310 + lg.n + tk.n + st.n); }
+	void update(FullControl& c) { Status st{1}; mixin(320 + st.n); c.changeTo<Right>(); }
+};
+struct Right : FSM::State {
+	void entryGuard(GuardControl&) { Task tk{9}; mixin(330 + tk.n); }
+	void enter(PlanControl&) { Logger lg{11}; mixin(340 + lg.n); }
+};
+void run() { FSM::Instance m; mixin(m.activeStateId()); m.update(); mixin(m.activeStateId()); m.update(); mixin(m.activeStateId()); }
+}
+
 } // namespace
 
 int main() {
 	run_all<false>();
 	run_all<true>();
+	concrete::run();
 	printf("C19-DIGEST %016llx calls=%lu\n", static_cast<unsigned long long>(g_hash), g_calls);
 	return 0;
 }
